@@ -1,5 +1,6 @@
 import RosuModel.Lemmas.ModsAccessors
 import RosuModel.Lemmas.ModsRef
+import RosuModel.Lemmas.ModsSettings
 import RosuModel.Lemmas.Attrs
 import RosuModel.Gen.LazerSettings
 
@@ -133,7 +134,8 @@ theorem hr_ez_agree (b : Nat) (mode : Mode) :
   have a2 : availAt mode rowEz = true := by cases mode <;> decide
   exact ⟨flagAt_legacy_eq_intermode Rat rows_ok b rowHr, flagAt_legacy_eq_intermode Rat rows_ok b rowEz,
     flagAt_lazer_eq_legacy Rat rows_ok b rowHr mode a1, flagAt_lazer_eq_legacy Rat rows_ok b rowEz mode a2,
-    flagAt_legacy_eq_intermode Rat rows_ok b rowHr, flagAt_lazer_eq_legacy Rat rows_ok b rowHr mode a1⟩
+    flagAt_legacy_eq_intermode Rat rows_ok b rowHr,
+    (hardrockOffsets_withMode mode (fromBits b)).trans (flagAt_lazer_eq_legacy Rat rows_ok b rowHr mode a1)⟩
 
 theorem no_slider_head_acc_agree (b : Nat) (mode : Mode) (lz : Bool) :
     (Rep.legacy (legacyFromBits b) : Rep Rat).noSliderHeadAcc lz = (Rep.intermode (fromBits b) : Rep Rat).noSliderHeadAcc lz ∧
@@ -182,7 +184,7 @@ theorem accessors_agree_partial (b : Nat) (h : OneDirection b) :
     simp only [Rep.snapshot, Snapshot.mk.injEq]
     refine ⟨(clock_rate_agree_partial b h .osu).1, (mult_agree b .osu).1, (hr_ez_agree b .osu).2.2.2.2.1,
       (no_slider_head_acc_agree b .osu true).1, (no_slider_head_acc_agree b .osu false).1,
-      (reflection_agree_li b), (mania_keys_agree b .osu).1, rfl, rfl, rfl, rfl, ?_⟩
+      (reflection_agree_li b), (mania_keys_agree b .osu).1, rfl, rfl, rfl, rfl, rfl, rfl, ?_⟩
     exact List.map_congr_left (fun row hrow => (flags_agree b row hrow).1)
   exact ⟨key, key⟩
 
@@ -287,11 +289,12 @@ example : ∃ (l : List (LMod Rat)) (x : LMod Rat), x ∈ l ∧ isRate x.kind = 
 
 /-! ## settings of lazer mods (generated arms)
 
-`Model/Mods.lean` evaluates the accessors below for lazer mods with *default* settings
-(`Rep.reflection`: HardRockOsu ↦ Vertical, Mirror ↦ Horizontal; `Rep.noSliderHeadAcc`: Classic ↦
-true; `Rep.hardrockOffsets` = `hr`; no scroll speed, no random seed).  The arms those defaults were
-read from are re-extracted from `src/model/mods.rs` on every run; a change of an arm or of a default
-breaks the obligation. -/
+`Model/Mods.lean` evaluates the accessors below from hand-transcribed arm tables
+(`reflLazerArms`, `nshaLazerArms`, `hroLazerArms`, `scrollLazerArms`, `seedLazerArms`).  The arms are
+re-extracted from `src/model/mods.rs` on every run, as text (`lazer_setting_arms_as_modelled`) and in
+structured form (`lazer_arm_tables_as_generated`: the generated tables *are* the model's tables); a
+change of an arm, of a default or of the mod/setting an arm reads breaks the obligation, and the
+correspondence lines `LZS` replay it on concrete mod sets. -/
 
 section LazerSettings
 open Rosu.Gen.LazerSettings
@@ -333,6 +336,377 @@ theorem lazer_setting_arms_as_modelled :
        ("scroll_speed", "let Self::Lazer(mods)=self else{return None};<LAZER>"),
        ("random_seed", "let Self::Lazer(mods)=self else{return None};<LAZER>")] := by decide +kernel
 
+/-- the structured arm tables that `Model/Mods.lean` interprets are exactly the ones extracted
+from the current `src/model/mods.rs` -/
+theorem lazer_arm_tables_as_generated :
+    Rosu.Gen.LazerSettings.reflLazerArms = reflLazerArms ∧
+    Rosu.Gen.LazerSettings.reflLazerElse = reflLazerElse ∧
+    Rosu.Gen.LazerSettings.nshaLazerArms = nshaLazerArms ∧
+    Rosu.Gen.LazerSettings.nshaIntermodeMod = nshaIntermodeMod ∧
+    Rosu.Gen.LazerSettings.hroLazerArms = hroLazerArms ∧
+    Rosu.Gen.LazerSettings.scrollLazerArms = scrollLazerArms ∧
+    Rosu.Gen.LazerSettings.seedLazerArms = seedLazerArms ∧
+    Rosu.Gen.LazerSettings.settingFields = settingFields := by decide
+
 end LazerSettings
+
+/-! ## settings of lazer mods: what each accessor returns, for every value of the setting
+
+`l` is any lazer set in iteration order (`LSorted`: the order the `BTreeMap` of a single-mode
+`rosu_mods::GameMods` yields, at most one mod per kind; `withMode_sorted`/`insertL_sorted`: every set
+the driver builds is one); `getK l k` is its mod of kind `k`. -/
+
+/-- `no_slider_head_acc(lazer)`: osu!'s Classic answers with its `no_slider_head_accuracy` setting,
+unset ↦ `true`; without Classic (and for every other mode's Classic) the answer is `!lazer` -/
+theorem classic_setting_value (mode : Mode) (l : List (LMod Rat)) (lz : Bool) (hs : LSorted l) :
+    (Rep.lazer mode l : Rep Rat).noSliderHeadAcc lz =
+      if mode = .osu then
+        match getK l .Classic with
+        | some c => c.nsha.getD true
+        | none => !lz
+      else !lz := nsha_eq mode l lz hs
+
+/-- `reflection()` of a lazer set: osu! — HardRock wins (it precedes Mirror in iteration order),
+else Mirror by its setting, else None; catch — Mirror ↦ Horizontal (HardRockCatch is not looked
+at); taiko, mania — None -/
+theorem reflection_value (mode : Mode) (l : List (LMod Rat)) (hs : LSorted l) :
+    (Rep.lazer mode l : Rep Rat).reflection =
+      match mode with
+      | .osu =>
+        match getK l .HardRock, getK l .Mirror with
+        | some _, _ => .vertical
+        | none, some mr => mirrorEval mr.mirror
+        | none, none => .none
+      | .catch =>
+        match getK l .Mirror with
+        | some _ => .horizontal
+        | none => .none
+      | _ => .none := reflection_eq mode l hs
+
+/-- the decision table of osu! `reflection()`: HardRock ∈ {absent, present} × Mirror ∈ {absent,
+unset, "0", "1", "2", anything else}.  Note the row `"0"`: lazer's explicit spelling of the default
+(`MirrorType.Horizontal = 0`) is read as *no* reflection. -/
+theorem reflection_decision_table (l : List (LMod Rat)) (hs : LSorted l) :
+    let r := (Rep.lazer .osu l : Rep Rat).reflection
+    ((getK l .HardRock).isSome = true → r = .vertical) ∧
+    (getK l .HardRock = none → getK l .Mirror = none → r = .none) ∧
+    (∀ mr, getK l .HardRock = none → getK l .Mirror = some mr →
+      (mr.mirror = none → r = .horizontal) ∧
+      (mr.mirror = some "0" → r = .none) ∧
+      (mr.mirror = some "1" → r = .vertical) ∧
+      (mr.mirror = some "2" → r = .both) ∧
+      (∀ s, mr.mirror = some s → s ≠ "1" → s ≠ "2" → r = .none)) := by
+  intro r
+  have hr : r = _ := reflection_eq .osu l hs
+  refine ⟨?_, ?_, ?_⟩
+  · intro h
+    obtain ⟨x, hx⟩ := Option.isSome_iff_exists.mp h
+    rw [hr, hx]
+  · intro h1 h2; rw [hr, h1, h2]
+  · intro mr h1 h2
+    have hr' : r = mirrorEval mr.mirror := by rw [hr, h1, h2]
+    refine ⟨?_, ?_, ?_, ?_, ?_⟩
+    · intro h; rw [hr', h]; rfl
+    · intro h; rw [hr', h]; decide
+    · intro h; rw [hr', h]; decide
+    · intro h; rw [hr', h]; decide
+    · intro s h n1 n2; rw [hr', h]; simp [mirrorEval, n1, n2]
+
+/-- "a Mirror mod whose `reflection` setting spells the default explicitly answers like one whose
+setting is unset" … -/
+def MirrorExplicitDefaultAgrees : Prop :=
+  (Rep.lazer .osu [{ kind := .Mirror, mirror := some "0" }] : Rep Rat).reflection =
+    (Rep.lazer .osu [{ kind := .Mirror }] : Rep Rat).reflection
+
+/-- … is false of the code: `Some("0")` falls into the `Some(_) => Some(Reflection::None)` arm
+(finding `mods-mirror-explicit-horizontal`) -/
+theorem mirror_explicit_default_differs :
+    ¬ MirrorExplicitDefaultAgrees ∧
+    (Rep.lazer .osu [{ kind := .Mirror, mirror := some "0" }] : Rep Rat).reflection = .none ∧
+    (Rep.lazer .osu [{ kind := .Mirror }] : Rep Rat).reflection = .horizontal := by
+  unfold MirrorExplicitDefaultAgrees; decide
+
+/-- `hardrock_offsets()`: catch's DifficultyAdjust answers with its `hard_rock_offsets` setting;
+unset (and every other mode / representation) ↦ `hr()` -/
+theorem hardrock_offsets_value (mode : Mode) (l : List (LMod Rat)) (hs : LSorted l) :
+    (Rep.lazer mode l : Rep Rat).hardrockOffsets =
+      ((if mode = .catch then (getK l .DifficultyAdjust).bind (·.hro) else none).getD
+        (Rep.lazer mode l : Rep Rat).hr) := by
+  simp only [Rep.hardrockOffsets, customHro_eq mode l hs]
+
+/-- `scroll_speed()`: taiko's DifficultyAdjust setting, `None` when unset / no such mod / other modes -/
+theorem scroll_speed_value (mode : Mode) (l : List (LMod Rat)) (hs : LSorted l) :
+    (Rep.lazer mode l : Rep Rat).scrollSpeed =
+      if mode = .taiko then (getK l .DifficultyAdjust).bind (·.scroll) else none := scroll_eq mode l hs
+
+/-- `random_seed()`: the seed of taiko's / mania's Random as `i32` (saturating); a Random mod whose
+seed is unset answers like no Random mod at all (`None`: the calculators do not shuffle) -/
+theorem random_seed_value (mode : Mode) (l : List (LMod Rat)) (hs : LSorted l) :
+    (Rep.lazer mode l : Rep Rat).randomSeed =
+      (if mode = .taiko ∨ mode = .mania then ((getK l .Random).bind (·.seed)).map castI32 else none) ∧
+    (∀ n : Int, -2147483648 ≤ n → n ≤ 2147483647 → castI32 n = n) := by
+  refine ⟨seed_eq mode l hs, ?_⟩
+  intro n h1 h2
+  unfold castI32
+  rw [if_neg (by omega), if_neg (by omega)]
+
+/-- the non-lazer representations never provide any of these settings -/
+theorem settings_absent_outside_lazer (rep : Rep Rat) (h : ∀ mode l, rep ≠ .lazer mode l) :
+    rep.customHro = none ∧ rep.hardrockOffsets = rep.hr ∧ rep.scrollSpeed = none ∧ rep.randomSeed = none := by
+  cases rep with
+  | lazer mode l => exact absurd rfl (h mode l)
+  | intermode s => exact ⟨rfl, rfl, rfl, rfl⟩
+  | legacy b => exact ⟨rfl, rfl, rfl, rfl⟩
+
+/-! ## lazer mods with all settings unset vs the same acronyms as `GameModsIntermode`
+
+`s` is *any* intermode set (also mods without legacy bit: Classic, Mirror, Invert, HoldOff, …). -/
+
+/-- flags: the lazer spelling keeps exactly the mods the mode has -/
+theorem lazer_default_flags (s : List IMod) (mode : Mode) (row : String × IMod × Option LName)
+    (hrow : row ∈ hasModRows) :
+    (Rep.lazer mode (withMode mode s) : Rep Rat).flag row =
+      ((Rep.intermode s : Rep Rat).flag row && avail mode row.2.1) := by
+  have hok := List.all_eq_true.mp rows_ok row hrow
+  have hm : row.2.1 ≠ .Unknown := by
+    simp only [rowOk, Bool.and_eq_true, decide_eq_true_eq] at hok; exact hok.1
+  simp only [Rep.flag]
+  exact any_withMode Rat mode s _ hm
+
+/-- the setting accessors of a default-settings lazer set against the owned intermode set:
+* no custom `hard_rock_offsets`, scroll speed or seed on either side;
+* `no_slider_head_acc`: equal for osu! (Classic ↦ `true` on both sides); for the other modes the
+  lazer Classic variants are not looked at (`!lazer`) while the intermode arm says `true` — no
+  calculator of those modes calls the accessor;
+* `reflection`: equal for osu! unless Mirror is in the set without HardRock (next theorem). -/
+theorem lazer_default_settings_eq_intermode (s : List IMod) (mode : Mode) :
+    let lz : Rep Rat := Rep.lazer mode (withMode mode s)
+    let im : Rep Rat := Rep.intermode s
+    lz.customHro = none ∧ im.customHro = none ∧ lz.hardrockOffsets = lz.hr ∧ im.hardrockOffsets = im.hr ∧
+    lz.scrollSpeed = none ∧ im.scrollSpeed = none ∧ lz.randomSeed = none ∧ im.randomSeed = none ∧
+    (∀ b, lz.noSliderHeadAcc b = if mode = .osu ∧ IMod.Classic ∈ s then true else !b) ∧
+    (∀ b, im.noSliderHeadAcc b = (decide (IMod.Classic ∈ s) || !b)) ∧
+    (mode = .osu → ∀ b, lz.noSliderHeadAcc b = im.noSliderHeadAcc b) ∧
+    (mode = .osu → (IMod.Mirror ∉ s ∨ IMod.HardRock ∈ s) → lz.reflection = im.reflection) := by
+  intro lz im
+  have hs := withMode_sorted (R := Rat) mode s
+  have hda : getK (withMode (R := Rat) mode s) .DifficultyAdjust =
+      if s.contains .DifficultyAdjust && avail mode .DifficultyAdjust then some { kind := .DifficultyAdjust } else none :=
+    getK_withMode mode s _ (by decide)
+  have hrd : getK (withMode (R := Rat) mode s) .Random =
+      if s.contains .Random && avail mode .Random then some { kind := .Random } else none :=
+    getK_withMode mode s _ (by decide)
+  have hcl : getK (withMode (R := Rat) mode s) .Classic =
+      if s.contains .Classic && avail mode .Classic then some { kind := .Classic } else none :=
+    getK_withMode mode s _ (by decide)
+  have hhr : getK (withMode (R := Rat) mode s) .HardRock =
+      if s.contains .HardRock && avail mode .HardRock then some { kind := .HardRock } else none :=
+    getK_withMode mode s _ (by decide)
+  have hmr : getK (withMode (R := Rat) mode s) .Mirror =
+      if s.contains .Mirror && avail mode .Mirror then some { kind := .Mirror } else none :=
+    getK_withMode mode s _ (by decide)
+  have c1 : lz.customHro = none := by
+    show (Rep.lazer mode (withMode mode s) : Rep Rat).customHro = none
+    rw [customHro_eq mode _ hs, hda]
+    split <;> [skip; rfl]
+    split <;> rfl
+  have n1 : ∀ b, lz.noSliderHeadAcc b = if mode = .osu ∧ IMod.Classic ∈ s then true else !b := by
+    intro b
+    show (Rep.lazer mode (withMode mode s) : Rep Rat).noSliderHeadAcc b = _
+    rw [nsha_eq mode _ b hs, hcl]
+    by_cases hm : mode = .osu <;> by_cases hc : IMod.Classic ∈ s <;> simp [hm, hc, avail]
+  have n2 : ∀ b, im.noSliderHeadAcc b = (decide (IMod.Classic ∈ s) || !b) := by
+    intro b
+    show (Rep.intermode s : Rep Rat).noSliderHeadAcc b = _
+    simp [Rep.noSliderHeadAcc, nshaIntermodeMod]
+  refine ⟨c1, rfl, ?_, rfl, ?_, rfl, ?_, rfl, n1, n2, ?_, ?_⟩
+  · show (Rep.lazer mode (withMode mode s) : Rep Rat).hardrockOffsets = _
+    unfold Rep.hardrockOffsets
+    have : (Rep.lazer mode (withMode mode s) : Rep Rat).customHro = none := c1
+    rw [this]; rfl
+  · show (Rep.lazer mode (withMode mode s) : Rep Rat).scrollSpeed = none
+    rw [scroll_eq mode _ hs, hda]
+    split <;> [skip; rfl]
+    split <;> rfl
+  · show (Rep.lazer mode (withMode mode s) : Rep Rat).randomSeed = none
+    rw [seed_eq mode _ hs, hrd]
+    split <;> [skip; rfl]
+    split <;> rfl
+  · intro hm b
+    rw [n1 b, n2 b]
+    by_cases hc : IMod.Classic ∈ s <;> simp [hm, hc]
+  · intro hm hmir
+    subst hm
+    show (Rep.lazer .osu (withMode .osu s) : Rep Rat).reflection = (Rep.intermode s : Rep Rat).reflection
+    rw [reflection_eq .osu _ hs, hhr, hmr]
+    have him : (Rep.intermode s : Rep Rat).reflection = if IMod.HardRock ∈ s then .vertical else .none := by
+      by_cases h : IMod.HardRock ∈ s <;> simp [Rep.reflection, reflIntermode, reflIntermodeElse, h]
+    rw [him]
+    by_cases h1 : IMod.HardRock ∈ s <;> by_cases h2 : IMod.Mirror ∈ s <;>
+      simp_all [avail]
+
+/-- "the lazer spelling of Mirror (settings unset) answers like the intermode spelling" … -/
+def MirrorSpellingsAgree : Prop :=
+  (Rep.lazer .osu (withMode .osu [IMod.Mirror]) : Rep Rat).reflection =
+    (Rep.intermode [IMod.Mirror] : Rep Rat).reflection
+
+/-- … is false of the code: the Intermode (and Legacy) arms of `reflection()` only know HardRock, so
+`GameModsIntermode{MR}` / `&GameModsIntermode{MR}` / `GameModsLegacy::Mirror` mean *no* reflection
+while lazer `MirrorOsu`/`MirrorCatch` with default settings mean Horizontal (finding
+`mods-mirror-only-lazer`; Mirror is not among the mods the property's quantifier lists) -/
+theorem mirror_spellings_disagree :
+    ¬ MirrorSpellingsAgree ∧
+    (Rep.lazer .osu (withMode .osu [IMod.Mirror]) : Rep Rat).reflection = .horizontal ∧
+    (Rep.lazer .catch (withMode .catch [IMod.Mirror]) : Rep Rat).reflection = .horizontal ∧
+    (Rep.intermode [IMod.Mirror] : Rep Rat).reflection = .none ∧
+    (Rep.legacy LName.Mirror.bits : Rep Rat).reflection = .none := by
+  unfold MirrorSpellingsAgree; decide +kernel
+
+/-! ## `Difficulty` setters vs lazer settings -/
+
+/-- `get_hardrock_offsets()`: the `Difficulty::hardrock_offsets` setter wins over DifficultyAdjust's
+`hard_rock_offsets` setting, which wins over the presence of HardRock -/
+theorem hardrock_offsets_precedence (d : Diff Rat) :
+    d.getHardrockOffsets =
+      match d.hardrockOffsets, d.mods.customHro with
+      | some b, _ => b
+      | none, some c => c
+      | none, none => d.mods.hr := by
+  unfold Diff.getHardrockOffsets Rep.hardrockOffsets
+  cases d.hardrockOffsets <;> cases d.mods.customHro <;> rfl
+
+/-- `Difficulty::hardrock_offsets(b)` ≡ catch DifficultyAdjust `hard_rock_offsets = b`: for a catch set
+whose DifficultyAdjust is `da`, the setting alone yields `b`, and so does the setter whatever the
+mods say -/
+theorem hro_setter_eq_da_setting (l : List (LMod Rat)) (da : LMod Rat) (b : Bool) (hs : LSorted l)
+    (hda : getK l .DifficultyAdjust = some da) (hb : da.hro = some b) (other : Rep Rat) (lzr : Option Bool) :
+    ({ mods := Rep.lazer .catch l, clockRate := none, lazer := lzr } : Diff Rat).getHardrockOffsets = b ∧
+    ({ mods := other, clockRate := none, hardrockOffsets := some b, lazer := lzr } : Diff Rat).getHardrockOffsets = b := by
+  refine ⟨?_, rfl⟩
+  simp only [Diff.getHardrockOffsets, Option.getD_none, Rep.hardrockOffsets, customHro_eq .catch l hs, hda,
+    if_true, Option.bind_some, hb, Option.getD_some]
+
+/-- rewriting DifficultyAdjust's `hard_rock_offsets` setting changes no accessor but
+`hardrock_offsets()` (so the equivalence above is about that one bit only) -/
+theorem da_hro_setting_changes_only_hro (mode : Mode) (l : List (LMod Rat)) (v : Option Bool) :
+    { (Rep.lazer mode (setHro v l) : Rep Rat).snapshot with hardrockOffsets := false } =
+      { (Rep.lazer mode l : Rep Rat).snapshot with hardrockOffsets := false } := by
+  unfold setHro
+  have hflag : ∀ row, (Rep.lazer mode (mapKind .DifficultyAdjust (fun m => { m with hro := v }) l) : Rep Rat).flag row =
+      (Rep.lazer mode l : Rep Rat).flag row := by
+    intro row
+    simp only [Rep.flag]
+    exact any_mapKind .DifficultyAdjust (fun m => { m with hro := v }) l _ (fun m _ => rfl)
+  have hflagAt : ∀ i, (Rep.lazer mode (mapKind .DifficultyAdjust (fun m => { m with hro := v }) l) : Rep Rat).flagAt i =
+      (Rep.lazer mode l : Rep Rat).flagAt i := by
+    intro i; unfold Rep.flagAt; cases hasModRows[i]? <;> simp [hflag]
+  have hattr : ∀ modes (field : LMod Rat → Option Rat), (∀ m : LMod Rat, field { m with hro := v } = field m) →
+      (Rep.lazer mode (mapKind .DifficultyAdjust (fun m => { m with hro := v }) l) : Rep Rat).mapAttr modes field =
+        (Rep.lazer mode l : Rep Rat).mapAttr modes field := by
+    intro modes field hf
+    simp only [Rep.mapAttr]
+    exact findSome?_mapKind .DifficultyAdjust (fun m => { m with hro := v }) l _ (fun m _ => by simp [hf])
+  simp only [Rep.snapshot, Snapshot.mk.injEq, true_and]
+  refine ⟨?_, ?_, ?_, ?_, ?_, ?_, ?_, ?_, hattr _ _ (fun _ => rfl), hattr _ _ (fun _ => rfl),
+    hattr _ _ (fun _ => rfl), hattr _ _ (fun _ => rfl), List.map_congr_left (fun row _ => hflag row)⟩
+  · simp only [Rep.clockRate]
+    rw [findSome?_mapKind .DifficultyAdjust (fun m => { m with hro := v }) l _ (fun m _ => rfl)]
+  · unfold Rep.mult
+    rw [find?_congr' multChain _ _ (fun c _ => hflagAt c.1)]
+  · simp only [Rep.noSliderHeadAcc]; rw [findSome?_mapKind .DifficultyAdjust (fun m => { m with hro := v }) l _ (fun m _ => rfl)]
+  · simp only [Rep.noSliderHeadAcc]; rw [findSome?_mapKind .DifficultyAdjust (fun m => { m with hro := v }) l _ (fun m _ => rfl)]
+  · simp only [Rep.reflection]; rw [findSome?_mapKind .DifficultyAdjust (fun m => { m with hro := v }) l _ (fun m _ => rfl)]
+  · simp only [Rep.maniaKeys]
+    rw [find?_congr' maniaKeysLazer _ _
+      (fun c _ => any_mapKind .DifficultyAdjust (fun m => { m with hro := v }) l (fun m => m.kind == c.1) (fun m _ => rfl))]
+  · simp only [Rep.scrollSpeed]; rw [findSome?_mapKind .DifficultyAdjust (fun m => { m with hro := v }) l _ (fun m _ => rfl)]
+  · simp only [Rep.randomSeed]; rw [findSome?_mapKind .DifficultyAdjust (fun m => { m with hro := v }) l _ (fun m _ => rfl)]
+
+/-- how `Difficulty::lazer` and osu!'s Classic interact (`OsuPerformance::generate_state`):
+* `lazer(false)` yields `OsuScoreOrigin::Stable` whatever the mods say;
+* with `lazer` unset/`true`: no Classic ↦ `WithSliderAcc`; Classic with `no_slider_head_accuracy`
+  unset or `true` ↦ `WithoutSliderAcc`; Classic with the setting `false` ↦ `WithSliderAcc`, like
+  no Classic at all.
+So `lazer(false)` and lazer Classic agree on `no_slider_head_acc` (both `true`) but are *not* the
+same score origin; Classic(`false`) ≡ no Classic as long as `lazer` is unset/`true` (under
+`lazer(false)` a Classic with the setting `false` still switches `using_classic_slider_acc` off,
+which the pp formula reads even for a Stable origin). -/
+theorem lazer_flag_vs_classic (l : List (LMod Rat)) (hs : LSorted l) (r : Option Rat) :
+    let d (lz : Option Bool) : Diff Rat := { mods := Rep.lazer .osu l, clockRate := r, lazer := lz }
+    (d (some false)).osuOrigin = .stable ∧
+    (getK l .Classic = none → (d (some false)).usingClassicSliderAcc = true) ∧
+    (∀ c, getK l .Classic = some c → (d (some false)).usingClassicSliderAcc = c.nsha.getD true) ∧
+    (∀ lz, lz = none ∨ lz = some true →
+      (getK l .Classic = none → (d lz).usingClassicSliderAcc = false ∧ (d lz).osuOrigin = .withSliderAcc) ∧
+      (∀ c, getK l .Classic = some c →
+        (d lz).usingClassicSliderAcc = c.nsha.getD true ∧
+        (c.nsha.getD true = true → (d lz).osuOrigin = .withoutSliderAcc) ∧
+        (c.nsha = some false → (d lz).osuOrigin = .withSliderAcc))) := by
+  intro d
+  refine ⟨rfl, ?_, ?_, ?_⟩
+  · intro h
+    show (Rep.lazer .osu l : Rep Rat).noSliderHeadAcc false = true
+    rw [nsha_eq .osu l _ hs, h]; rfl
+  · intro c h
+    show (Rep.lazer .osu l : Rep Rat).noSliderHeadAcc false = c.nsha.getD true
+    rw [nsha_eq .osu l _ hs, h]; rfl
+  · intro lz hlz
+    have hg : (d lz).getLazer = true := by rcases hlz with rfl | rfl <;> rfl
+    have hu : (d lz).usingClassicSliderAcc = (Rep.lazer .osu l : Rep Rat).noSliderHeadAcc true := by
+      unfold Diff.usingClassicSliderAcc; rw [hg]
+    have ho : (d lz).osuOrigin = if (d lz).usingClassicSliderAcc then .withoutSliderAcc else .withSliderAcc := by
+      unfold Diff.osuOrigin; rw [hg]; cases (d lz).usingClassicSliderAcc <;> rfl
+    refine ⟨?_, ?_⟩
+    · intro h
+      have : (d lz).usingClassicSliderAcc = false := by rw [hu, nsha_eq .osu l _ hs, h]; rfl
+      exact ⟨this, by rw [ho, this]; rfl⟩
+    · intro c h
+      have : (d lz).usingClassicSliderAcc = c.nsha.getD true := by rw [hu, nsha_eq .osu l _ hs, h]; rfl
+      refine ⟨this, ?_, ?_⟩
+      · intro ht; rw [ho, this, ht]; rfl
+      · intro hf; rw [ho, this, hf]; rfl
+
+/-- mania's `classic = !get_lazer() || cl()`: `Difficulty::lazer(false)` ≡ having Classic -/
+theorem mania_classic_equivalence (mods : Rep Rat) (r : Option Rat) :
+    ({ mods := mods, clockRate := r, lazer := some false } : Diff Rat).maniaClassic = true ∧
+    (∀ lz, lz = none ∨ lz = some true →
+      ({ mods := mods, clockRate := r, lazer := lz } : Diff Rat).maniaClassic = mods.cl) := by
+  refine ⟨rfl, ?_⟩
+  intro lz h
+  rcases h with rfl | rfl <;> simp [Diff.maniaClassic, Diff.getLazer]
+
+/-! ## `&GameModsIntermode` with mods that have no legacy bit -/
+
+/-- `From<&GameModsIntermode>`: `checked_bits()` is `None` exactly when some mod of the set has no
+legacy bit (Classic, Invert, HoldOff, Daycore, Blinds, Traceable, TenKeys, DifficultyAdjust, …), and
+then the *whole* set is kept as an owned copy — no mod is dropped silently, the borrowed spelling is
+the owned spelling -/
+theorem ref_spelling_keeps_unrepresentable (s : List IMod) :
+    (checkedBits s = none ↔ ∃ m ∈ imIter s, m.bits = none) ∧
+    (∀ m ∈ [IMod.Classic, .Invert, .HoldOff, .Daycore, .Blinds, .Traceable, .TenKeys, .DifficultyAdjust],
+      m ∈ s → checkedBits s = none) := by
+  refine ⟨checkedBits_none_iff s, ?_⟩
+  intro m hm hs
+  rw [checkedBits_none_iff]
+  refine ⟨m, (mem_imIter s m).mpr ⟨?_, hs⟩, ?_⟩ <;>
+    (simp only [List.mem_cons, List.mem_nil_iff, or_false] at hm
+     rcases hm with rfl | rfl | rfl | rfl | rfl | rfl | rfl | rfl <;> decide)
+
+/-! ## non-vacuity (settings) -/
+
+/-- sets in iteration order exist with every mod the theorems talk about, and `insertL` builds them -/
+example : LSorted (insertL ({ kind := .Mirror, mirror := some "2" } : LMod Rat)
+    (insertL { kind := .Classic, nsha := some false } (withMode .osu (fromBits 24)))) :=
+  insertL_sorted _ _ (insertL_sorted _ _ (withMode_sorted _ _))
+
+example : (Rep.lazer .osu (insertL ({ kind := .Mirror, mirror := some "2" } : LMod Rat)
+    (withMode .osu (fromBits 8))) : Rep Rat).reflection = .both := by decide +kernel
+
+example : (Rep.lazer .catch [({ kind := .HardRock } : LMod Rat),
+    { kind := .DifficultyAdjust, hro := some false }] : Rep Rat).hardrockOffsets = false ∧
+    (Rep.lazer .catch [({ kind := .HardRock } : LMod Rat)] : Rep Rat).hardrockOffsets = true := by decide +kernel
+
+example : (Rep.lazer .taiko [({ kind := .Random, seed := some 3000000000 } : LMod Rat)] : Rep Rat).randomSeed =
+    some 2147483647 := by decide +kernel
 
 end Rosu.Mods
